@@ -77,6 +77,8 @@ def const_cases(seed, n):
     out = []
     for i, t in enumerate(texts[:n]):
         c = contexts[0] if r.random() < 0.5 else r.choice(contexts)
+        if '**' in c and len(t) > 3:
+            c = contexts[0]
         try:
             src = c.format(t)
         except Exception:
